@@ -1949,7 +1949,30 @@ listen_case(long idx)
 		}
 		vf_class("listen-probe/%s/%s/%s/after-%s", vf_tran_names[le->tran], pname, use_nng ? "nng-client" : "raw-client", lab);
 	}
+	// close while connections are in the middle of the handshake
+	int nh = 0, hfd[8];
+	if (vf_chance(&r, 2, 3)) {
+		uint8_t hello[8];
+		vf_sp_hello(hello, ts->proto->peer);
+		nh = (int) vf_range(&r, 2, 8);
+		for (int i = 0; i < nh; i++) {
+			hfd[i] = raw_connect_url(les[vf_below(&r, (uint32_t) nl)]->url, 2000);
+			if (hfd[i] >= 0) {
+				int k = (int) vf_below(&r, 8);
+				if (k) vf_fd_write_all(hfd[i], hello, (size_t) k, 1000);
+			}
+		}
+		if (vf_chance(&r, 1, 2)) vf_usleep((int) vf_below(&r, 2000));
+		if (vf_chance(&r, 1, 3)) {
+			ep_close(les[vf_below(&r, (uint32_t) nl)]);
+			vf_stat("listener_closed_mid_handshake", 1);
+		}
+		vf_stat("closes_with_handshakes_pending", 1);
+	}
 	close_all_and_check("listen", pname);
+	for (int i = 0; i < nh; i++) {
+		if (hfd[i] >= 0) close(hfd[i]);
+	}
 	vf_stat("cases", 1);
 	if ((idx & 15) == 0) {
 		vf_sample("{\"mode\":\"listen\",\"proto\":\"%s\",\"listeners\":%d,\"rounds\":%d,\"events_logged\":%d}", pname, nl, rounds, evn);
@@ -1968,6 +1991,11 @@ main(int argc, char **argv)
 	for (long idx = 0; idx < vf_cases; idx++) {
 		if (!vf_want_case(idx)) continue;
 		vf_watchdog(90);
+		if (strcmp(mode, "events") != 0 && vf_violations() >= 4) {
+			// every further miss costs a 5 s deadline: enough evidence
+			vf_stat("cases_skipped_after_violations", 1);
+			continue;
+		}
 		ensure_init(idx, 16);
 		if (!strcmp(mode, "events")) {
 			events_case(idx);
